@@ -62,10 +62,42 @@ def run_init(case, ctx):
     ctx.label('init:' + kind)
 
 
+# --------------------------------------------------------------------------- ensembles: the box is the ensemble's
+def _ens_cases(tier):
+    """C09's ensemble configurations, run to completion, the nested solver given as a class or as an instance that
+    carries no ranges of its own: the strict ranges set on the ensemble are then the only ones there are"""
+    from vp.props import c09
+
+    def fix(c):
+        c = dict(c); c['mode'] = 'solve'; c['kw_first'] = False
+        if c['map'] in ('forked', 'default'): c['map'] = 'serial'
+        if c['as'] == 'instance': c['as'] = 'bare'
+        return c
+    return c09.ens_cases(tier).map(fix)
+
+
+def run_ensemble(case, ctx):
+    from vp.props import c09
+    s, cost, pen, sink = c09.build(case)
+    lo = FL(case['lo']); hi = FL(case['hi'])
+    s.Solve(cost, disp=0)
+    n = 0
+    for t, x, v in cost.log:
+        n += 1
+        if not ctx.expect(lab.in_box(x, lo, hi), 'C02.calls',
+                          lambda: dict(kind=case['kind'], nested=case['nested'], given_as=case['as'], map=case['map'], x=x, member=t,
+                                       lo=lo, hi=hi, note='an ensemble member called the cost outside the strict ranges')):
+            break
+    ctx.label('ens:' + case['kind'], 'nested:' + case['nested'], 'as:' + case['as'])
+    ctx.nontrivial(n >= 10)
+
+
 TESTS = [Test('machine', _run, machine=sm.c02_machine_factory,
               examples={'quick': 3200, 'thorough': 60000}, steps={'quick': 14, 'thorough': 30}),
          Test('initial', run_init, strategy=lambda tier: init_cases(tier),
-              examples={'quick': 1600, 'thorough': 30000})]
+              examples={'quick': 1600, 'thorough': 30000}),
+         Test('ensemble', run_ensemble, strategy=lambda tier: _ens_cases(tier),
+              examples={'quick': 800, 'thorough': 12000})]
 
 from vp.solver_machine import kf_gnt as sm_kf_gnt
 
